@@ -860,7 +860,7 @@ class Gen:
                 if r.open_children == 0:
                     r.closed = True
                 return True
-            k = self.pick(["func", "func", "decl", "const", "alias"])
+            k = self.pick(["func", "func", "decl", "const", "alias"] + (["decl", "decl", "func"] if self.flags.get("call_bias") else []))
             r.n_instr += 1
             if k == "func":
                 return self.define_function(r)
@@ -898,7 +898,7 @@ class Gen:
             return False
         choices = ["op"] * 6 + ["load", "order", "order"]
         if self.callable_funcs(r):
-            choices += ["call"] * 5
+            choices += ["call"] * (20 if self.flags.get("call_bias") else 5)
         depth = 0
         cur = r
         while cur.parent is not None:
@@ -1027,8 +1027,8 @@ META = st.one_of(st.none(), st.none(), st.none(), st.dictionaries(st.sampled_fro
 
 
 @st.composite
-def programs(draw, size=12, max_depth=2, roots=("module", "dfg", "function", "cfg", "cond", "loop"), detached=True):
-    g = Gen(draw, draw(st.integers(max(2, size // 3), size)), {"max_depth": max_depth, "detached": detached})
+def programs(draw, size=12, max_depth=2, roots=("module", "dfg", "function", "cfg", "cond", "loop"), detached=True, call_bias=False):
+    g = Gen(draw, draw(st.integers(max(2, size // 3), size)), {"max_depth": max_depth, "detached": detached, "call_bias": call_bias})
     kind = draw(st.sampled_from(list(roots)))
     if kind == "module":
         root = {"kind": "module"}
